@@ -1,31 +1,22 @@
-"""Per-property check recipes."""
+"""Per-property check recipes are discovered from lib/recipes/<id>.py.  Each module defines
+PID, recipe(c: Check) -> exit code, and MANIFEST (dict: text, note, technique, design)."""
+import glob
+import importlib.util
 import os
-from vlib import Check, V
 
-
-def q(tier, quick, thorough):
-    return quick if tier == "quick" else thorough
-
-
-def c17(c: Check):
-    c.build(["Properties/C17.vo", "Corr/C17.vo"])
-    c.obligations("C17")
-    st = c.run_driver("codec", q(c.tier, 1500, 24000), shards=q(c.tier, 8, 16),
-                      extra=os.path.join(V, "golden/msg_vectors.txt"))
-    if st:
-        for name in st.get("golden_mismatch", []):
-            c.failures.append(dict(key="golden-vector:%s" % name, driver="codec",
-                                   what="encoding of the pinned %s message differs from the released bytes" % name,
-                                   case="golden/msg_vectors.txt entry %s" % name))
-    return c.finish(
-        rule="codec driver: half valid messages (all 18 types, reflection-filled: empty/long/unicode strings, nil vs empty maps and "
-             "slices, extreme integers, nil/zero/v4/v4-mapped/v6/zoned UDP addresses) through real msg.WriteMsg+ReadMsg, compared with "
-             "Model.MsgObj.enc_obj/dec_obj over today's translated schema; half adversarial byte strings (all 256 type bytes, boundary "
-             "lengths 0/10240/10241/2^63-1/-1/-2^63, truncations, bit flips, trailing bytes, garbage bodies) through real msg.ReadMsg "
-             "with a counting reader, compared with Model.Frame.decode_frame (result class, bytes consumed, type). distinct = distinct "
-             "case text; non-trivial = non-empty input / body other than {}",
-        assumptions=["encoding/json text layer is an oracle (Section variable) in C17_message_roundtrip; exercised by the driver and by pinned golden vectors",
-                     "golib msg/json framing is third-party code in the module cache; modelled by Model/Frame.v and compared on every run"])
-
-
-RECIPES = {"C17": c17}
+RECIPES = {}
+MANIFESTS = {}
+_here = os.path.dirname(os.path.abspath(__file__))
+for _p in sorted(glob.glob(os.path.join(_here, "recipes", "*.py"))):
+    _name = os.path.basename(_p)[:-3]
+    if _name.startswith("_"):
+        continue
+    _spec = importlib.util.spec_from_file_location("recipes." + _name, _p)
+    _m = importlib.util.module_from_spec(_spec)
+    try:
+        _spec.loader.exec_module(_m)
+    except Exception as e:  # a broken recipe must not take the other checks down
+        print("recipe %s failed to load: %s" % (_name, e))
+        continue
+    RECIPES[_m.PID] = _m.recipe
+    MANIFESTS[_m.PID] = _m.MANIFEST
